@@ -128,9 +128,10 @@ def handleOn (copy : Bool) (toks : List String) : String :=
     -- on the case line and the model says whether a variant of the code admits it
     let L := parseNat! l
     let s := PySeq.fresh 32 ((L + 31) / 32)
-    if (staleAdmissible .asIs s (parseNat! m)).contains obs then "adm-ok"
-    else if (staleAdmissible .repaired s (parseNat! m)).contains obs then "adm-ok"
-    else s!"adm-bad {obs} not admitted"
+    -- the code as repaired (lightmotif-py: export counting): `same` when no look-ahead row has to be
+    -- added, `BufferError` otherwise; `differs` is admitted by no variant that satisfies the property
+    if (staleAdmissible .repaired s (parseNat! m)).contains obs then "adm-ok"
+    else s!"adm-bad {obs} not admitted (admitted: {staleAdmissible .repaired s (parseNat! m)})"
   | _ => "bad-case"
 
 def handle (toks : List String) : String :=
